@@ -66,7 +66,9 @@ def check_C01(run, replay):
                 "(MC_Build's universe, hash slice) x every profile on the grid {(1,0),(0,1),(1,1)} per infoset; "
                 "model: Eval.tla (operational evaluator: collect, pop in ANY admissible order, search) checked by TLC on the "
                 "same cases and on U-tiny for NoBadRead / NoUnderflow / ResolvedLeavesFirst / AllReachedResolved / "
-                "MatchesDeclarative (and refuted without the action in the recall rule, MC_EvalOpTiny_NoAction.cfg)")
+                "MatchesDeclarative (and refuted without the action in the recall rule, MC_EvalOpTiny_NoAction.cfg); histories: "
+                "MC_History.tla - the profile as a stateful object, every sequence of {evaluate, truncate at 1/4, 1/2, 3/5, clone, "
+                "re-import} of length 3 (4 thorough) that observes after a mutation, replayed on ONE real object")
     run.assumptions = ["f64 evaluation of a depth<=5 game is within 1e-11 of the exact rational value",
                        "TLC evaluates the TLA+ operators of Rat.tla / Game.tla correctly"]
     if replay:
@@ -86,6 +88,18 @@ def check_C01(run, replay):
     absorb(run, rows, {c["id"]: c for c in cases}, mismatch_sig("eval"))
     if replay:
         return
+    # the profile as a stateful object: every operation sequence of length 3 (4 thorough) on a few cases
+    hist_path = run.path("hist.ndjson")
+    write_ndjson(hist_path, cases[:10 if run.tier == "quick" else 60])
+    res = tlc("MC_History", env={"CASES": hist_path, "DEPTH": 3 if run.tier == "quick" else 4}, timeout=6000)
+    run.add_tlc(res)
+    hexp = run.path("hist.exp.ndjson")
+    hrecs = res.out("OUT")
+    write_ndjson(hexp, [{"id": n, "exp": v} for n, (_, v) in enumerate(hrecs)])
+    hout = run.path("hist.res.ndjson")
+    harness(["replay", "history", "--cases", hist_path, "--exp", hexp, "--out", hout])
+    absorb(run, read_ndjson(hout), {n: v for n, (_, v) in enumerate(hrecs)}, mismatch_sig("eval"))
+    run.notes["histories"] = len(hrecs)
     # the operational model of the evaluator (Eval.tla): every resolution order, on a prefix of the cases
     op_path = run.path("op.ndjson")
     write_ndjson(op_path, cases[:120 if run.tier == "quick" else 1500])
